@@ -939,7 +939,7 @@ def shiftlon(lon_input, shift=None, wrap=True):
         if negshift:
             lon += abs_shift
 
-            (w,) = np.where(lon > 360.0)
+            (w,) = np.where(lon >= 360.0)
             if w.size > 0:
                 lon[w] -= 360.0
         else:
